@@ -21,7 +21,7 @@ RULE = ('One case = a random sequence of 30-60 clock operations (start, stop, sp
         'an assignment while running and a rejected assignment.')
 ASSUMPTIONS = ['real-time values, speeds and assigned values are dyadic rationals, so the clock\'s float arithmetic is exact in mode (i)',
                'mode (ii): the value is only determined up to the real time spent inside an operation']
-REQUIRED_COUNTERS = ['readings_exact', 'readings_bounded', 'rejected_assignments', 'accepted_assignments_running',
+REQUIRED_COUNTERS = ['followed_clock_replaced', 'readings_exact', 'readings_bounded', 'rejected_assignments', 'accepted_assignments_running',
                      'speed_changes_running', 'stopped_stillness_checks', 'synchronized_checks']
 
 
@@ -220,8 +220,15 @@ def sync_case(acc, rnd):
     syn = SynchronizedClock(it)
     last_step_time = it.time
     for k in range(rnd.randint(10, 30)):
-        op = rnd.choice(('clock', 'queue', 'step', 'step'))
-        if op == 'clock':
+        op = rnd.choice(('clock', 'queue', 'step', 'step', 'newclock'))
+        if op == 'newclock':
+            # the followed interpreter gets another clock (possibly showing an earlier time): the synchronized clock
+            # still has to show the time of the interpreter's last step, whatever that is
+            nc = SimulatedClock()
+            nc.time = rnd.choice((0, 0, 1, 50))
+            it.clock = nc
+            acc.count('followed_clock_replaced')
+        elif op == 'clock':
             it.clock.time += rnd.choice(DTS)
         elif op == 'queue':
             it.queue('go')
